@@ -5,6 +5,7 @@ import (
 
 	"github.com/bluenviron/mediamtx/internal/conf"
 	"github.com/bluenviron/mediamtx/internal/defs"
+	"github.com/bluenviron/mediamtx/internal/unit"
 	"github.com/bluenviron/mediamtx/zzverif/vsched"
 )
 
@@ -12,6 +13,8 @@ import (
 type ConcSpec struct {
 	Base        *conf.Conf
 	Reload      *conf.Conf // reloaded concurrently (nil = none)
+	Reload2     *conf.Conf // a second reload sent right after the first (nil = none)
+	Params      bool       // the concurrent publisher writes key frames with changing in-band SPS/PPS
 	Name        string     // path name used by the clients
 	PrePublish  bool       // a publisher (with a reader) is attached before the concurrent phase
 	Publisher   bool       // a publisher attaches concurrently, writes one unit, leaves
@@ -58,6 +61,17 @@ func ConcBody(sp ConcSpec) func() {
 					return
 				}
 				Write(res.SubStream, m, f, 'B', 1)
+				if sp.Params {
+					n := 2
+					if !vsched.Active() {
+						n = 400 // free-running race pass: keep the writer busy while the API reads the description
+					}
+					for i := 0; i < n; i++ {
+						sps := []byte{0x67, 0x42, 0xc0, 0x28, 0xd9, 0x00, 0x78, 0x02, 0x27, 0xe5, 0x84, 0x00, 0x00, 0x03, 0x00, 0x04, 0x00, 0x00, 0x03, 0x00, 0xf0, 0x3c, 0x60, 0xc9, byte(0x20 + i%2)}
+						pps := []byte{0x68, 0xce, 0x3c, byte(0x80 + i%2)}
+						res.SubStream.WriteUnit(m, f, &unit.Unit{PTS: int64(10+i) * 3000, Payload: unit.PayloadH264{sps, pps, {5, 'B', byte(i)}}})
+					}
+				}
 				res.Path.RemovePublisher(defs.PathRemovePublisherReq{Author: pub})
 				vsched.Log("removed B")
 			})
@@ -92,7 +106,14 @@ func ConcBody(sp ConcSpec) func() {
 		}
 		if sp.APIGet {
 			spawn(func() {
-				_, err := pm.APIPathsGet(sp.Name)
+				n := 1
+				if !vsched.Active() && sp.Params {
+					n = 400
+				}
+				var err error
+				for i := 0; i < n; i++ {
+					_, err = pm.APIPathsGet(sp.Name)
+				}
 				vsched.Log("got-api %v", err == nil)
 			})
 		}
@@ -100,6 +121,10 @@ func ConcBody(sp ConcSpec) func() {
 			spawn(func() {
 				pm.ReloadPathConfs(sp.Reload.Paths)
 				vsched.Log("reload sent")
+				if sp.Reload2 != nil {
+					pm.ReloadPathConfs(sp.Reload2.Paths)
+					vsched.Log("reload 2 sent")
+				}
 			})
 		}
 		if sp.Kick && preRes != nil {
